@@ -318,6 +318,20 @@ func TestVerifC20(t *testing.T) {
 		c.Sample("edge-cases", 1, map[string]any{"source": src, "accepted": res.accepted})
 	})
 
+	// ---- hand-written VALID sources in rarely generated layouts (full oracle of valid sources)
+	kit.Run(t, "C20", "valid-layouts", len(validLayouts)*2, func(c *kit.Case) {
+		src := validLayouts[c.Index%len(validLayouts)]
+		if c.Index >= len(validLayouts) {
+			src = strings.ReplaceAll(src, "\n", "\r\n")
+		}
+		o := checkOpts{valid: true}
+		res := check([]byte(src), o)
+		tally(c, "valid-layouts", res)
+		c.Obs("valid_layout_sources", 1)
+		c.Sig(res.accepted, "valid-layouts", hashOf(src))
+		report(c, res, src, o, nil, map[string]any{"family": "valid-layouts"})
+	})
+
 	// ---- deep nesting / long inputs
 	// The formatter's cost grows roughly cubically with struct nesting (a -race
 	// build needs ~6 s for depth 64, minutes for depth 400): depths are chosen so
